@@ -19,8 +19,8 @@
 
 static time_t g_now=1000000; extern "C" time_t time(time_t *t){ if(t) *t=g_now; return g_now; }
 using cm::Op;
-// the two keys have the same hash value (PJW hash: 'a'*16+0x20 == 'b'*16+0x10), so they always share a bucket of the cache's hash table: operations on one walk past the other
-static const std::string KA("a "), KB("b\x10");
+// the two keys have the same hash value, so they always share a bucket of the cache's hash table: operations on one walk past the other
+static const std::string KA("\0",1), KB("\0\0",2); // one NUL and two NULs: both hash to 0 (same bucket at every table size) AND the first is a proper prefix of the second
 static std::vector<Op> alphabet(){ std::vector<Op> v; Op o; o.k=Op::FETCH; o.key=KA; v.push_back(o); o.key=KB; v.push_back(o); { Op s; s.k=Op::STORE; s.key=KA; s.trig.insert("t"); s.dl=-1; v.push_back(s); } { Op s; s.k=Op::STORE; s.key=KA; s.dl=-1; v.push_back(s); } { Op s; s.k=Op::STORE; s.key=KB; s.trig.insert("t"); s.dl=-1; v.push_back(s); } { Op r; r.k=Op::RISE; r.key="t"; v.push_back(r); } { Op r; r.k=Op::REMOVE; r.key=KA; v.push_back(r); } { Op c; c.k=Op::CLEAR; v.push_back(c); } { Op s; s.k=Op::STATS; v.push_back(s); } return v; }
 struct Init { std::string label; unsigned limit; std::vector<Op> ops; };
 static std::vector<Init> inits(){ std::vector<Init> v; std::vector<Op> A=alphabet(); Init e; e.label="empty"; e.limit=0; v.push_back(e); Init a; a.label="{a}"; a.limit=0; a.ops.push_back(A[2]); v.push_back(a); Init ab; ab.label="{a,b}@limit2"; ab.limit=2; ab.ops.push_back(A[2]); ab.ops.push_back(A[4]); v.push_back(ab); Init a1; a1.label="{a}@limit1"; a1.limit=1; a1.ops.push_back(A[3]); v.push_back(a1); return v; }
@@ -66,7 +66,7 @@ int main(int argc,char **argv){ vf::init(argc,argv,"C09","model_checking");
 	tsan_pass(); return vf::finish();
 #else
 	int n=16; bool th=vf::thorough();
-	vf::C().rule="keys a=\"a \" and b=\"b\\x10\" have equal hash values (same bucket at every table size); thread programs over {fetch(a), fetch(b), store(a,{t}), store(a,{}), store(b,{t}), rise(t), remove(a), clear, stats}: all 81 pairs of single operations under ALL schedules, triples of single operations and 2x2 programs over a 6-operation subset under every schedule with <= "+std::string(th?"3":"2")+" preemptions, x initial states {empty, {a}, {a,b} at limit 2, {a} at limit 1}; scheduling points = every pthread rwlock / mutex operation of the cache. Oracle: brute-force linearizability of the recorded history w.r.t. the set-valued cache model + final audit; deadlock detection. states = distinct observed outcome vectors, transitions = scheduling decisions, traces = executions of the real code. Data races: separate free-running ThreadSanitizer pass";
+	vf::C().rule="keys a=NUL and b=NUL NUL have equal hash values (same bucket at every table size) and a is a proper prefix of b; thread programs over {fetch(a), fetch(b), store(a,{t}), store(a,{}), store(b,{t}), rise(t), remove(a), clear, stats}: all 81 pairs of single operations under ALL schedules, triples of single operations and 2x2 programs over a 6-operation subset under every schedule with <= "+std::string(th?"3":"2")+" preemptions, x initial states {empty, {a}, {a,b} at limit 2, {a} at limit 1}; scheduling points = every pthread rwlock / mutex operation of the cache. Oracle: brute-force linearizability of the recorded history w.r.t. the set-valued cache model + final audit; deadlock detection. states = distinct observed outcome vectors, transitions = scheduling decisions, traces = executions of the real code. Data races: separate free-running ThreadSanitizer pass";
 	vf::assume("atomicity and ordering are decided at lock granularity (scheduling points at the pthread operations the cache performs); weak-memory effects below the pthread primitives are not modelled"); vf::assume("the data-race clause is decided by ThreadSanitizer on free-running executions of the same programs (happens-before analysis of the schedules that occurred, not enumeration)");
 	if(!vf::C().replay_file.empty()) printf("replay: the replay file names the program and the schedule (choice vector); re-running the quick tier reproduces it\n");
 	vf::parallel(n,n,[&](int sh){ shard(sh,n); },th?1700:280);
